@@ -255,7 +255,7 @@ def clause_extension_wiring(prog, rep):
                       "whether %s is present also depends on %s: as_raw writes the field unconditionally, so the extension no longer round-trips "
                       "and the field's length check is skipped in that case" % (fld, sorted(foreign) or "no test of the field itself"), fr0.loc())
     # fixed-length conversions fail with the matching variant
-    fam = [fr[0]] + [prog.fns[p] for p in prog.extent(fr[0]) if p in prog.fns and prog.fns[p].root == fr[0].path and p != fr[0].path]
+    fam = prog.family(fr[0])
     built = set(s["variant"] for g in fam for bb, s in g.aggregates("Error"))
     for fld, var in sorted(OPTIONAL.items()):
         rep.check(var in built, "extension-wiring", "length/%s" % fld, "a wrong %s length fails with Error::%s" % (fld, var),
